@@ -26,10 +26,10 @@ unsafe impl GlobalAlloc for Counting {
 static GLOBAL: Counting = Counting;
 static PARSE_ALLOCS: AtomicU64 = AtomicU64::new(0);
 /// C01: the input being parsed right now, so that a panic / abort inside the real crate can be attributed to it
-static mut CUR: (&str, u8, usize, [u8; 256], usize) = ("", 0, 0, [0; 256], 0);
+static mut CUR: (&str, u8, usize, [u8; 1024], usize) = ("", 0, 0, [0; 1024], 0);
 fn set_cur(family: &'static str, cfg: u8, cap: usize, buf: &[u8]) {
     unsafe {
-        let n = buf.len().min(256);
+        let n = buf.len().min(1024);
         CUR.0 = family; CUR.1 = cfg; CUR.2 = cap; CUR.4 = n;
         CUR.3[..n].copy_from_slice(&buf[..n]);
     }
@@ -278,6 +278,7 @@ fn enumerate(alpha: &[u8], maxlen: usize, prefix: &[u8], suffix: &[u8], f: &mut 
         }
     }
 }
+const LONG_BAD: &[u8] = &[0x00, 0x09, 0x0a, 0x0d, 0x1f, 0x20, 0x3a, 0x7f, 0xff];
 const BOUNDARY: &[u8] = &[0x00, 0x01, 0x08, 0x09, 0x0a, 0x0b, 0x0d, 0x1f, 0x20, 0x21, 0x22, 0x2f, 0x30, 0x39, 0x3a, 0x3b, 0x41, 0x5a, 0x61, 0x7a, 0x7e, 0x7f, 0x80, 0x9f, 0xa0, 0xc3, 0xe1, 0xff];
 
 fn search_chunk(ctx: &mut Ctx) {
@@ -322,6 +323,17 @@ fn search_request(ctx: &mut Ctx) {
             let mut m = b"GET /".to_vec(); m.extend(pad(b'x', tl)); m.extend(b" HTTP/1.1\r\nH: v\r\n\r\n");
             for k in 0..=m.len() { check_request(ctx, &m[..k], cfgb, 1); }
         }
+    }
+    // wide (unrolled) vector steps: a forbidden byte / the delimiter at every offset up to 300, with more than 128 bytes behind it
+    ctx.gen = "long-sweep";
+    for p in 64..=300usize { for &b1 in LONG_BAD {
+        let mut m = b"GET /".to_vec(); m.extend(pad(b'a', p)); m.push(b1); m.extend(pad(b'a', 440 - p)); m.extend(b" HTTP/1.1\r\n\r\n");
+        check_request(ctx, &m, 0, 0);
+        if ctx.full() { return; }
+    } }
+    for tl in 64..=300usize {
+        let mut m = b"GET /".to_vec(); m.extend(pad(b'a', tl)); m.extend(b" HTTP/1.1\r\nHost: example\r\n\r\n"); m.extend(pad(b'B', 200));
+        check_request(ctx, &m, 0, 1);
     }
     ctx.gen = "buffer-end";
     for l in 0..=100usize { let mut m = b"GET /".to_vec(); m.extend(pad(b'x', l)); check_request(ctx, &m, 0, 1); }
@@ -395,6 +407,19 @@ fn search_header_block(ctx: &mut Ctx, start: &[u8], kind: u8) {
         if l % 8 == 0 { run(ctx, &v[..v.len() - 36], &opt_cfgs, &[1]); run(ctx, &n, &opt_cfgs, &[1]); }
         if ctx.full() { return; }
     } } }
+    // wide (unrolled) vector steps: a forbidden byte / the line end at every offset up to 300 of a value or name, long tail behind it
+    ctx.gen = "long-sweep";
+    for p in 64..=300usize { for &b1 in LONG_BAD {
+        let mut v = b"N: ".to_vec(); v.extend(pad(b'v', p)); v.push(b1); v.extend(pad(b'v', 440 - p)); v.extend(b"\r\n\r\n"); v.extend(pad(b'B', 64));
+        run(ctx, &v, &[0], &[2]);
+        let mut n = pad(b'n', p); n.push(b1); n.extend(pad(b'n', 440 - p)); n.extend(b":v\r\n\r\n");
+        run(ctx, &n, &[0], &[2]);
+        if ctx.full() { return; }
+    } }
+    for vl in 64..=300usize { for eol in [&b"\r\n"[..], b"\n"] {
+        let mut v = b"N: ".to_vec(); v.extend(pad(b'v', vl)); v.extend_from_slice(eol); v.extend(b"M: x"); v.extend_from_slice(eol); v.extend_from_slice(eol); v.extend(pad(b'B', 200));
+        run(ctx, &v, &[0], &[2]);
+    } }
     // unterminated long runs (buffer ends inside a value / name): every length, so that every block phase meets the buffer end
     ctx.gen = "buffer-end";
     for l in 0..=100usize {
